@@ -69,7 +69,9 @@ def main():
         if name in ('no_ctrl_connect', 'all') and server.is_alive():
             # a client that sends a complete worker request and dies before it connects the control channel (a: after reading the
             # control address, b: without reading it)
-            for variant in ('after reading the control address', 'without reading the control address'):
+            for variant in ('after reading the control address', 'without reading the control address',
+                            'after reading the control address, with a connection reset (RST, what a killed client whose socket has SO_LINGER 0 produces)',
+                            'without reading the control address, with a connection reset (RST)'):
                 w = RemoteWorker(T.square, args=(3,), host=addr, run=False)
                 s = raw(addr)
                 send_msg(s, (None, True))
@@ -79,13 +81,16 @@ def main():
                         obs['control_addr'] = repr(recv_msg(s))
                     except Exception as e:      # noqa
                         obs['control_addr'] = f'{type(e).__name__}: {e}'
+                if 'RST' in variant:
+                    import struct
+                    s.setsockopt(socket.SOL_SOCKET, socket.SO_LINGER, struct.pack('ii', 1, 0))
                 s.close()
                 time.sleep(0.5)
                 if not server.is_alive():
                     viol.append(f'server process died after a client vanished {variant}')
                     break
                 ok, why = server_serves(addr)
-                obs[f'serves_after_client_vanished_{variant.split()[0]}'] = ok
+                obs[f'serves_after_client_vanished_{variant.split()[0]}{"_rst" if "RST" in variant else ""}'] = ok
                 if not ok:
                     viol.append(f'a client that sent a worker request and vanished {variant} (before connecting the control channel) blocks the server: ' + why)
                     break
@@ -108,6 +113,46 @@ def main():
             server.terminate(timeout=2, force=True)
         except Exception:
             pass
+    if name in ('reset_in_handshake', 'all'):
+        # a client that sends a complete worker request and is then RESET (killed; its data socket has SO_LINGER 0) while the server is between reading the
+        # request and answering it.  The window is selected by descheduling the server there (line injector, SLEEP: nothing is raised or patched).
+        import os
+        import struct
+        here = os.path.dirname(os.path.abspath(__file__))
+        old_env = {k: os.environ.get(k) for k in ('PYVC_INJECT', 'PYTHONPATH')}
+        os.environ['PYVC_INJECT'] = f'remote.py|__setstate__|self._from_remote_parent = False|SLEEP1.0|{os.getpid()}|before'
+        os.environ['PYTHONPATH'] = os.path.join(here, 'inject') + os.pathsep + os.environ.get('PYTHONPATH', '')
+        server3 = None
+        try:
+            server3 = spawn_server(('127.0.0.1', 0))
+        finally:
+            for k, v in old_env.items():
+                if v is None:
+                    os.environ.pop(k, None)
+                else:
+                    os.environ[k] = v
+        try:
+            w = RemoteWorker(T.square, args=(3,), host=server3.addr, run=False)
+            s = raw(server3.addr)
+            send_msg(s, (None, True))
+            send_msg(s, w)
+            time.sleep(0.4)             # the server has read the whole request and is held in the handshake
+            s.setsockopt(socket.SOL_SOCKET, socket.SO_LINGER, struct.pack('ii', 1, 0))
+            s.close()                   # RST
+            time.sleep(1.5)
+            obs['alive_after_reset_in_handshake'] = server3.is_alive()
+            if not server3.is_alive():
+                viol.append('server process died after a client that had sent a complete worker request was reset (RST) before the server answered it')
+            else:
+                ok, why = server_serves(server3.addr)
+                obs['serves_after_reset_in_handshake'] = ok
+                if not ok:
+                    viol.append('a client reset (RST) during the handshake leaves the server unable to serve healthy clients: ' + why)
+        finally:
+            try:
+                server3.terminate(timeout=2, force=True)
+            except Exception:
+                pass
     if name in ('close_on_none', 'all'):
         # a server that stops when a client SENDS None (close_on_none=True) must not stop because a client hangs up without sending anything
         server2 = spawn_server(('127.0.0.1', 0), close_on_none=True)
